@@ -261,8 +261,12 @@ def r_delimiters(mod, rep, R='R5.1'):
     # the text is tokenised with the delimiter regex
     text = N(pw.text)
     ok = False
-    padded = ('call', A(N(TOK), 'sub'), (C(' \\1 '), text), ())
-    chunks = ('call', A(N(TOK), 'split'), (text,), ())
+
+    def _subject(t):
+        # the text itself, possibly with the blanks at its ends removed
+        while t[0] == 'call' and t[1][0] == 'attr' and t[1][2] in ('strip', 'lstrip', 'rstrip') and not t[2]:
+            t = t[1][1]
+        return t == text
     for st, o in pw.paths:
         for t in terms_of(st):
             for s_ in subterms(t):
@@ -270,9 +274,11 @@ def r_delimiters(mod, rep, R='R5.1'):
                 # either the padded text as a whole, or each chunk between delimiters
                 if style == 'split' and s_[0] == 'call' and s_[1][0] == 'attr' and s_[1][2] == 'split' and s_[2] in ((C(' '),), ()):
                     recv = s_[1][1]
-                    if recv == padded or (recv[0] == 'elem' and recv[1] == chunks):
+                    if recv[0] == 'call' and recv[1] == A(N(TOK), 'sub') and len(recv[2]) == 2 and recv[2][0] == C(' \\1 ') and _subject(recv[2][1]) and not recv[3]:
                         ok = True
-                if style != 'split' and s_ == ('call', A(N(TOK), 'findall'), (text,), ()):
+                    if recv[0] == 'elem' and recv[1][0] == 'call' and recv[1][1] == A(N(TOK), 'split') and len(recv[1][2]) == 1 and _subject(recv[1][2][0]):
+                        ok = True
+                if style != 'split' and s_[0] == 'call' and s_[1] == A(N(TOK), 'findall') and len(s_[2]) == 1 and _subject(s_[2][0]) and not s_[3]:
                     ok = True
     rep.check(ok, R, '%s:%s Category.parse' % (REL, parse.lineno), 'delimiters:tokenise',
               'the text is tokenised with the delimiter regex (%s style): blanks never matter' % style,
